@@ -17,3 +17,26 @@ package obykeyset
 //@   ensures[pipeline-id-is-the-joined-key-tuple] joinedof(obase.lastbufid, joinpos, keys, 44, len(keys))
 //@   ensures[tag-is-the-template-over-this-tuple] len(old(o.tagBuilder.tagExpander.partProviders)) == 1 ==> obase.lasttag === stringtemplate.ppval(ref(old(o.tagBuilder.tagExpander.partProviders[0])), keys)
 //@   ensures[tag-length-is-the-template-over-this-tuple] len(old(o.tagBuilder.tagExpander.partProviders)) != 1 ==> len(obase.lasttag) == stringtemplate.elen(old(o.tagBuilder.tagExpander), keys, len(old(o.tagBuilder.tagExpander.partProviders)))
+
+// ==== per-connection buffers towards the pipelines (C05: arrival order; C01: nothing is left behind by a flush) ===================
+// Append keeps arrival order (the record becomes the last pending one, everything before it stays); Flush hands over a
+// copy of exactly the pending records, in order, as ONE message on the pipeline's FIFO channel (or reports a BUG after the
+// time-out) and leaves nothing pending. lastflushed: ghost - the message handed over by the last Flush.
+//@ ghost var lastflushed []*base.LogRecord
+//@ func (cache *channelInputBuffer) Append(record *base.LogRecord) bool
+//@   property C05 C07
+//@   requires cache != nil && record != nil && record.RawLength >= 0 && cache.PendingBytes >= 0 && cache.PendingBytes < 4611686018427387904 && record.RawLength < 4611686018427387904
+//@   modifies cache.PendingLogs, cache.PendingBytes, mem(*base.LogRecord)
+//@   ensures[appended-last-order-kept] len(cache.PendingLogs) == old(len(cache.PendingLogs)) + 1 && cache.PendingLogs[len(cache.PendingLogs)-1] == record
+//@        && forall i int :: 0 <= i && i < old(len(cache.PendingLogs)) ==> cache.PendingLogs[i] == old(cache.PendingLogs[i])
+//@   ensures[bytes-counted] cache.PendingBytes == old(cache.PendingBytes) + record.RawLength
+//@   ensures[flush-requested-at-the-limits] result <==> (cache.PendingBytes >= defs.IntermediateBufferMaxTotalBytes || len(cache.PendingLogs) >= defs.IntermediateBufferMaxNumLogs)
+
+//@ func (cache *channelInputBuffer) Flush(now time.Time, parentLogger logger.Logger, loggingKey interface{})
+//@   property C05 C07
+//@   requires cache != nil && cache.Channel != nil && parentLogger != nil
+//@   modifies cache.PendingLogs, cache.PendingBytes, cache.LastFlushTime, lastflushed
+//@   ghostset lastflushed := reusableLogBuffer
+//@   ensures[nothing-left-pending] len(cache.PendingLogs) == 0 && cache.PendingBytes == 0
+//@   ensures[message-is-the-pending-records-in-order] len(lastflushed) == old(len(cache.PendingLogs)) && forall i int :: 0 <= i && i < len(lastflushed) ==> lastflushed[i] == old(cache.PendingLogs[i])
+//@   ensures[one-message-or-a-reported-timeout] nsent(cache.Channel) == old(nsent(cache.Channel)) + 1 || nsent(cache.Channel) == old(nsent(cache.Channel))
